@@ -1,6 +1,7 @@
 package vc
 
 import (
+	"fmt"
 	"go/token"
 	"go/types"
 	"sort"
@@ -28,6 +29,24 @@ type resolvedTarget struct {
 	pkgHeaps string
 	heapName string
 	heapPfx  bool // heapName is a prefix (all component heaps of a field)
+	// elems(s): every field (and nested array) of the objects the elements of slice s point to
+	isElems bool
+	eArr    Term            // Array Int Int: the element references of s's object (pre-state)
+	eLo     Term            // absolute index range of s inside its object
+	eHi     Term
+	eHeaps  map[string]bool // field and nested-array heaps of the element object types
+}
+
+// member: r is an element object of the elems target, or a sub-object (nested struct/array) of one.
+func (t *resolvedTarget) member(fr *Frame, r Term) Term {
+	k := Term{"k!el", SInt}
+	e := Select(t.eArr, k)
+	fr.top.dot(IntT(0), 0) // make sure dot / dot_base / dot_fld and their axioms are declared
+	db := fr.top.ctx.Func("dot_base", []string{SInt}, SInt)
+	// a sub-object (nested struct / array) was allocated together with the object that contains it
+	fr.top.ctx.Raw("dot-base-stamp", fmt.Sprintf("(assert (forall ((x!d Int)) (! (=> (not (= (dot_fld x!d) 0)) (= (stamp x!d) (stamp (%s x!d)))) :pattern ((%s x!d)))))", db, db))
+	sub := And(Not(Eq(fr.top.dotFld(r), IntT(0))), Eq(e, Term{"(" + db + " " + r.S + ")", SInt}))
+	return Exists([]Term{k}, And(InRange(k, t.eLo, t.eHi), Not(Eq(e, Nil)), Or(Eq(e, r), sub)))
 }
 
 // resolveTargets evaluates modifies targets in the scope's state.
@@ -133,6 +152,52 @@ func (fr *Frame) resolveTarget(sc *Scope, mt ModTarget) []resolvedTarget {
 		if id, ok := e.Fun.(*EIdent); ok && id.Name == "bytes" && len(e.Args) == 0 {
 			// bytes(): the byte memory (restrict with an ensures such as rootBytesKept())
 			return []resolvedTarget{{text: mt.Text, heapName: elemHeap(types.Typ[types.Uint8], "")}}
+		}
+		if id, ok := e.Fun.(*EIdent); ok && id.Name == "elems" && len(e.Args) == 1 {
+			// elems(s): the objects the elements of s point to (all their fields and nested arrays);
+			// elems(old(s)): the elements s had on entry
+			esc := sc
+			if oc, ok := e.Args[0].(*ECall); ok {
+				if oid, ok := oc.Fun.(*EIdent); ok && oid.Name == "old" && len(oc.Args) == 1 && sc.old != nil {
+					c2 := *sc
+					c2.st = sc.old
+					esc = &c2
+				}
+			}
+			b := fr.evalExpr(sc, e.Args[0])
+			sl, ok := b.T.Underlying().(*types.Slice)
+			if !ok {
+				cfail("elems(%s): not a slice", ExprString(e.Args[0]))
+			}
+			rt := resolvedTarget{text: mt.Text, isElems: true, eLo: b.Off(), eHi: IAdd(b.Off(), b.Len()), eHeaps: map[string]bool{}}
+			var structs []types.Type
+			switch u := sl.Elem().Underlying().(type) {
+			case *types.Pointer:
+				rt.eArr = fr.objArray(esc.st, b.Obj(), sl.Elem(), 0)
+				structs = append(structs, u.Elem())
+			case *types.Interface:
+				rt.eArr = fr.objArray(esc.st, b.Obj(), sl.Elem(), 1) // the .ref component
+				if named, ok := sl.Elem().(*types.Named); ok && u.NumMethods() > 0 {
+					for _, im := range fr.en.closedImpls(named, u.Method(0)) {
+						if pt, ok := im.recvT.(*types.Pointer); ok {
+							structs = append(structs, pt.Elem())
+						}
+					}
+				}
+				if len(structs) == 0 {
+					cfail("elems(%s): the element interface is not closed (no implementation list)", ExprString(e.Args[0]))
+				}
+			default:
+				cfail("elems(%s): elements are neither pointers nor interface values", ExprString(e.Args[0]))
+			}
+			for _, stT := range structs {
+				if stt, ok := stT.Underlying().(*types.Struct); ok {
+					for i := 0; i < stt.NumFields(); i++ {
+						fr.fieldHeapNames(typeName(stT), stt, i, rt.eHeaps)
+					}
+				}
+			}
+			return []resolvedTarget{rt}
 		}
 		if id, ok := e.Fun.(*EIdent); ok && id.Name == "obj" && len(e.Args) == 1 {
 			// obj(s): the whole backing object of s
@@ -240,6 +305,24 @@ func (fr *Frame) havocTargets(st *State, tgs []resolvedTarget) {
 				fr.top.heapSorts[t.heapName] = srt
 			}
 			st.heaps[t.heapName] = fr.ctx.Fresh("Hh:"+t.heapName, srt)
+			fr.reassertConstStrings(st)
+		case t.isElems:
+			var hns []string
+			for hn := range t.eHeaps {
+				hns = append(hns, hn)
+			}
+			sort.Strings(hns)
+			r := Term{"r!el", SInt}
+			for _, hn := range hns {
+				srt := fr.top.heapSorts[hn]
+				if srt == "" {
+					continue
+				}
+				old := fr.heap(st, hn, srt)
+				nh := fr.ctx.Fresh("Hh:"+hn, srt)
+				fr.assume(st, Forall([]Term{r}, Implies(Not(t.member(fr, r)), Eq(Select(nh, r), Select(old, r))), Select(nh, r)))
+				st.heaps[hn] = nh
+			}
 			fr.reassertConstStrings(st)
 		case t.isField:
 			for k, hn := range t.heaps {
@@ -388,6 +471,11 @@ func (fr *Frame) frameObligations(st *State, preHeaps map[string]Term, alloc0 Te
 					excl = append(excl, And(Eq(r, t.obj), InRange(j, t.lo, t.hi)))
 				}
 			}
+			for i := range tgs {
+				if tgs[i].isElems && tgs[i].eHeaps[hn] {
+					excl = append(excl, tgs[i].member(fr, r))
+				}
+			}
 			goal = Forall([]Term{r, j}, Implies(And(old, Not(Or(excl...))), Eq(Select(Select(now, r), j), Select(Select(pre, r), j))))
 		} else {
 			var excl []Term
@@ -399,6 +487,11 @@ func (fr *Frame) frameObligations(st *State, preHeaps map[string]Term, alloc0 Te
 					if th == hn {
 						excl = append(excl, Eq(r, t.ref))
 					}
+				}
+			}
+			for i := range tgs {
+				if tgs[i].isElems && tgs[i].eHeaps[hn] {
+					excl = append(excl, tgs[i].member(fr, r))
 				}
 			}
 			goal = Forall([]Term{r}, Implies(And(old, Not(Or(excl...))), Eq(Select(now, r), Select(pre, r))))
